@@ -1,8 +1,181 @@
 import RbV.Basic.Codec
-/-! Driver for property C20 (line protocol → verdict). -/
+import RbV.Spec.Orf
+import RbV.Spec.Alphabet
+import RbV.Spec.Gc
+import RbV.Ref.Complement
+import RbV.Model.OrfScan
+/-! Driver for property C20: ORF finder, complements, alphabets / rank transform, GC content.
+
+```
+c20 orf <starts> <stops> <min_len> <seq>  => s:e:o,s:e:o,…          accepted by `Orf.acceptOrf` (sandwich)
+c20 rc <dna|rna> <seq>                    => <revcomp> <revcomp²>    = model revcomp over the dumped table, = seq
+c20 comp <dna|rna>                        => 256 bytes               = the dumped table (Gen/Complement.lean)
+c20 alpha <symbols> <t1>/<t2>/…           => len max emp w r t ra    = `Alpha` model
+c20 gc <seq>                              => <gc> <gc3>              within 1e-6 of the exact ratios
+```
+-/
 namespace RbV.Drv.C20
 open RbV.Codec
 
-def verdict (_toks : List String) (_out : String) : String := "bad-op unimplemented"
+def failed (out : String) : Bool :=
+  out.startsWith "PANIC" || out.startsWith "HANG" || out.startsWith "CRASH"
+
+def parseCodon (s : String) : Option (List Nat) :=
+  match parseHex s with
+  | some c => if c.length = 3 then some c else none
+  | none => none
+
+def parseTriple (s : String) : Option (Nat × Nat × Nat) :=
+  match s.splitOn ":" with
+  | [a, b, c] => do
+    let a ← parseNat a
+    let b ← parseNat b
+    let c ← parseNat c
+    pure (a, b, c)
+  | _ => none
+
+def showTriple (t : Nat × Nat × Nat) : String := s!"{t.1}:{t.2.1}:{t.2.2}"
+
+def orfVerdict (starts stops : List (List Nat)) (minLen : Nat) (seq : List Nat) (out : List (Nat × Nat × Nat)) :
+    String :=
+  let all := Orf.allOrfs seq starts stops
+  if Orf.acceptOrf seq starts stops minLen out then
+    let nt := !all.isEmpty
+    let frames := (all.map (fun p => p.1 % 3)).eraseDups
+    let ends := all.map (·.2)
+    let model := Model.OrfScan.findAll starts stops minLen seq
+    let tags := (if nt then " nt" else " no-orf")
+      ++ (if out.isEmpty then " none-reported" else "")
+      ++ (if frames.length ≥ 2 then " multi-frame" else "")
+      ++ (if ends.eraseDups.length < ends.length then " nested" else "")
+      ++ (if all.any (fun p => minLen ≤ p.2 - p.1 && p.2 - p.1 ≤ minLen + 2) then " boundary" else "")
+      ++ (if all.any (fun p => p.2 - p.1 < minLen) then " short-filtered" else "")
+      ++ (if out.length ≥ 3 then " out>=3" else "")
+      ++ (if model = out then "" else " drift")
+    "ok" ++ tags
+  else
+    match out.find? (fun t => !(Orf.isOrfB seq starts stops t.1 t.2.1)) with
+    | some t => "reject not-an-orf " ++ showTriple t
+    | none =>
+    match out.find? (fun t => !(decide (minLen ≤ t.2.1 - t.1))) with
+    | some t => "reject shorter-than-min " ++ showTriple t
+    | none =>
+    match out.find? (fun t => !(t.2.2 == t.1 % 3)) with
+    | some t => "reject wrong-offset " ++ showTriple t
+    | none =>
+    if !(decide out.Nodup) then "reject reported-twice" else
+    match all.find? (fun p => !(decide (p.2 - p.1 ≤ minLen + 2) || out.contains (p.1, p.2, p.1 % 3))) with
+    | some p => s!"reject missing {p.1}:{p.2}:{p.1 % 3}"
+    | none => "reject orf"
+
+def table (kind : String) : Option (List Nat) :=
+  if kind = "dna" then some Gen.Complement.dna
+  else if kind = "rna" then some Gen.Complement.rna
+  else none
+
+/-- `key:value` token → value, if the key matches -/
+def fieldVal (tok key : String) : Option String :=
+  match field tok with
+  | some (k, v) => if k = key then some v else none
+  | none => none
+
+def bits (l : List Bool) : String := String.ofList (l.map fun b => if b then '1' else '0')
+
+def alphaVerdict (syms : List Nat) (texts : List (List Nat)) (out : String) : String :=
+  let A := Alpha.mk syms
+  let expLen := toString A.length
+  let expMax := match Alpha.maxSymbol A with | some m => toString m | none => "n"
+  let expEmp := if A.isEmpty then "1" else "0"
+  let words := texts.map (Alpha.isWord A)
+  let expW := bits words
+  let expR := toHex (syms.map (Alpha.rank A))
+  let expT := "/".intercalate (texts.map fun t => if Alpha.isWord A t then toHex (Alpha.transform A t) else "nw")
+  let exp := s!"len:{expLen} max:{expMax} emp:{expEmp} w:{expW} r:{expR} t:{expT} ra:1"
+  if out = exp then
+    let nt := A.length ≥ 2 && words.any id && texts.any (fun t => t.length ≥ 2)
+    "ok" ++ (if nt then " nt" else "") ++ " alpha"
+      ++ (if A.length = 256 then " a256" else "") ++ (if A.isEmpty then " a0" else "")
+      ++ (if words.any (!·) then " nonword" else "")
+      ++ (if syms.length > A.length then " dup-symbols" else "")
+  else "diff " ++ exp
+
+/-- decimal digits → number -/
+def digitsVal (s : String) : Option Nat := if s.isEmpty then none else s.toNat?
+
+/-- parse the `{:e}` rendering of a non-negative finite float (`3.3333334e-1`, `0e0`) into a fraction -/
+def parseSci (s : String) : Option (Nat × Nat) :=
+  match s.splitOn "e" with
+  | [m, e] =>
+    match e.toInt? with
+    | none => none
+    | some ex =>
+      let parts := m.splitOn "."
+      match parts with
+      | [ip] => do
+        let d ← digitsVal ip
+        if ex ≥ 0 then pure (d * 10 ^ ex.toNat, 1) else pure (d, 10 ^ (-ex).toNat)
+      | [ip, fp] => do
+        let d ← digitsVal (ip ++ fp)
+        let sc : Int := ex - fp.length
+        if sc ≥ 0 then pure (d * 10 ^ sc.toNat, 1) else pure (d, 10 ^ (-sc).toNat)
+      | _ => none
+  | _ => none
+
+def gcVerdict (seq : List Nat) (out : String) : String :=
+  match out.splitOn " " with
+  | [a, b] =>
+    match parseSci a, parseSci b with
+    | some (p, q), some (p3, q3) =>
+      let l := seq.length
+      let c := Gc.gcCount seq
+      if !Gc.within1e6 p q c l then s!"diff gc={c}/{l}" else
+      let first := Gc.every3 seq 0
+      let third := Gc.every3 seq 2
+      let okFirst := Gc.within1e6 p3 q3 (Gc.gcCount first) first.length
+      let okThird := !third.isEmpty && Gc.within1e6 p3 q3 (Gc.gcCount third) third.length
+      if okFirst || okThird then
+        "ok gc" ++ (if l ≥ 2 && 0 < c && c < l then " nt" else "")
+          ++ (if okFirst then "" else " gc3-third-position") ++ (if l ≥ 1000 then " long" else "")
+      else s!"diff gc3={Gc.gcCount first}/{first.length}"
+    | _, _ => "reject gc-not-a-finite-number " ++ out
+  | _ => "bad-op output"
+
+def verdict (toks : List String) (out : String) : String :=
+  match toks with
+  | ["orf", st, sp, ml, sq] =>
+    match parseList parseCodon st, parseList parseCodon sp, parseNat ml, parseHex sq with
+    | some starts, some stops, some minLen, some seq =>
+      if starts.any (fun c => stops.contains c) then "bad-op start-and-stop-sets-overlap" else
+      if failed out then "reject " ++ out else
+      match parseList parseTriple out with
+      | some o => orfVerdict starts stops minLen seq o
+      | none => "bad-op output"
+    | _, _, _, _ => "bad-op parse"
+  | ["rc", kind, sq] =>
+    match table kind, parseHex sq with
+    | some tbl, some seq =>
+      if failed out then "reject " ++ out else
+      let exp := toHex (Compl.revcomp tbl seq) ++ " " ++ toHex seq
+      if out = exp then
+        "ok rc" ++ (if seq.length ≥ 2 && seq.any (fun b => Compl.comp tbl b != b) then " nt" else "")
+      else "diff " ++ exp
+    | _, _ => "bad-op parse"
+  | ["comp", kind] =>
+    match table kind with
+    | some tbl =>
+      if failed out then "reject " ++ out else
+      if out = toHex tbl then "ok nt table" else "diff " ++ toHex tbl
+    | none => "bad-op parse"
+  | ["alpha", sy, ts] =>
+    match parseHex sy, parseListNE parseHex ts '/' with
+    | some syms, some texts => if failed out then "reject " ++ out else alphaVerdict syms texts out
+    | _, _ => "bad-op parse"
+  | ["gc", sq] =>
+    match parseHex sq with
+    | some seq =>
+      if seq.isEmpty then "bad-op empty-sequence" else
+      if failed out then "reject " ++ out else gcVerdict seq out
+    | none => "bad-op parse"
+  | _ => "bad-op arity"
 
 end RbV.Drv.C20
